@@ -30,6 +30,7 @@ MODULES = [
     ("src/archetype/mod.rs", "arch.rs", "verif_kani"),
     ("src/archetype/mod.rs", "view.rs", "verif_kani_view"),
     ("src/archetype/identifier/mod.rs", "bits.rs", "verif_kani"),
+    ("src/archetype/impl_serde.rs", "deser_arch.rs", "verif_kani"),
     ("src/entity/allocator/impl_serde.rs", "deser_alloc.rs", "verif_kani"),
     ("src/query/view/par/seal/repeat.rs", "par.rs", "verif_kani"),
     ("src/entities/mod.rs", "batch.rs", "verif_kani"),
